@@ -119,3 +119,20 @@ _PENDING = 'not yet claimed: its model, theorems and streams are under construct
 NOT_APPLICABLE = []
 NOTES = ('All checks share one engine: tools/check.py <id>. Replays: tools/check.py <id> --replay <file>. '
          'known_findings.json lists recorded defects (KNOWN-FINDING lines) and fixed ones.')
+
+# third leg of the tie (DESIGN 15.9): whole functions re-translated from the Rust source on every run (tools/rsparse.py + tools/rs2lean.py)
+_SRC = {
+ 'C03': 'Third leg: tools/rs2lean.py re-translates the WHOLE interpreter (interpreter.rs: expression/unary/binary/boolean/ternary/get_values/array/variable/call, and lib.rs execute) and the ordering half of value.rs (Ord::cmp, PartialEq::eq, is_empty, as_bool) from the current source text into Lean on every run; C04Source.lean (interp_is_source, execute_is_source) and C13Source.lean (cmp_is_source, eq_is_source) prove the hand-written model equal to the generated functions, so execute_eq_spec is re-checked against what the source says now.',
+ 'C04': 'Third leg: the interpreter is re-translated from interpreter.rs into a writer monad whose log is the sequence of Environment::variable / Environment::call invocations (Rust evaluation order = order of the binds); C04Source.lean proves result AND trace of the model equal to the generated function for every tree and every initial log (interp_is_source, trace_is_source).',
+ 'C05': 'Third leg: optimizer.rs (transform_ternary, fold_constants, optimize, expressions_are_const; functional translation of the &mut borrows, loop as fuel recursion) is re-translated from the source on every run and C05Source.lean proves transform / fold (tree, flag, error: also the partially rewritten tree) / optimize of the model equal to it.',
+ 'C06': 'Third leg: optimizer.rs is re-translated from the source on every run (tools/rs2lean.py); C05Source.lean proves the model optimizer equal to the generated one (transform_is_source, fold_is_source, optimize_is_source), so termination / purity / minimal-fixpoint theorems are re-checked against the current source.',
+ 'C10': 'Third leg: validate.rs (check_variables_and_functions, check_expressions) and the Environment impl of environment.rs (function_exists arity arithmetic, variable_exists, call, variable; get_env_key = to_lowercase) are re-translated from the source on every run; C10Source.lean and C19Source.lean prove the model equal to the generated functions.',
+ 'C11': 'Third leg: check_boolean_result is re-translated from validate.rs on every run (tools/rs2lean.py) and C10Source.checkBool_is_source proves the model validator equal to it.',
+ 'C13': 'Third leg: Ord::cmp, PartialEq::eq, ordinal, empty, is_empty, as_bool of value.rs are re-translated from the source on every run (partial_cmp must be Some(self.cmp(other))); C13Source.lean proves Value.cmp / Value.eq / isEmpty / asBool of the model equal to the generated functions, so the ordering theorems are about what the source says now.',
+ 'C19': 'Third leg: impl Environment for StaticEnvironment (variable, call, variable_exists, function_exists) and get_env_key are re-translated from environment.rs on every run; C19Source.lean proves the observations of the model (getVariable, call, variableExists, functionExists, toEnv) equal to the generated functions.',
+}
+for _c in CHECKS:
+    if _c['property_id'] in _SRC:
+        _c['text'] = _c['text'] + ' ' + _SRC[_c['property_id']]
+        _c['technique'] = _c['technique'] + ' + source-to-Lean translation of the functions with kernel-checked equality to the model'
+        _c['note'] = _c['note'] + ' The translator tools/rs2lean.py (how it reads Rust: ownership erased, Result/Option as monads, &mut as returned values, evaluation order as bind order) is trusted; outside its subset it reports `unrecognised` and the Source theorems are not claimed in that run.'
